@@ -382,12 +382,14 @@ StringDictionary *StringDictionaryHASHHF::load(std::istream &in,
     return NULL;
 
   StringDictionaryHASHHF *dict = new StringDictionaryHASHHF();
-  dict->type = technique;
+  // The hash technique only selects the in-memory hash representation: the
+  // dictionary keeps its own type (save() writes it as the image tag)
+  dict->type = HASHHF;
   dict->elements = loadValue<uint64_t>(in);
   dict->maxlength = loadValue<uint32_t>(in);
   dict->maxcomplength = loadValue<uint32_t>(in);
 
-  dict->hash = Hash::load(in, dict->type);
+  dict->hash = Hash::load(in, technique);
   dict->bytesStrings = loadValue<uint64_t>(in);
   dict->textStrings = loadValue<uchar>(in, dict->bytesStrings);
   dict->hash->setData(dict->textStrings);
